@@ -270,6 +270,7 @@ func (pp *zvC13Pipe) tables() zvC13Tables {
 }
 
 func zvC13Step(r *vh.Run, u zvC13Uni, hist []zvC13Op) (string, []zvC13Op, bool) {
+	zvoFresh()
 	c := zvC13Case{u, hist}
 	pipes := [4]*zvC13Pipe{
 		zvC13NewPipe(u, [2]bool{true, true}),   // main
@@ -449,8 +450,15 @@ func TestVerifC13(t *testing.T) {
 	if r.IsReplay() {
 		var c zvC13Case
 		r.ReplayCase(&c)
-		for n := 0; n <= len(c.Hist); n++ {
-			zvC13Step(r, c.U, c.Hist[:n])
+		// The Loc-RIB notifies its two export sessions in Go map iteration order (ClientManager.Clients).
+		// For correct code the order is irrelevant; a defect through which one session's export leaks into
+		// another table can depend on it. The harness cannot fix the order, so the case is repeated and every
+		// signature seen is reported (300 repetitions: a signature needing k specific coin flips is missed
+		// with probability (1-2^-k)^300, < 1e-4 for k <= 5).
+		for rep := 0; rep < 300; rep++ {
+			for n := 0; n <= len(c.Hist); n++ {
+				zvC13Step(r, c.U, c.Hist[:n])
+			}
 		}
 		for _, k := range zvC13Required {
 			r.Count(k, 1)
